@@ -20,7 +20,7 @@
    DRRProofs.drr_progress shows unreachable.
 
    Besides the forwarded packets an action emits the internal events of run() in program order
-   (DOPass, DOQuantum, DOSkip, DOSend, DOPark, DODebit): the visit rule of C15 is stated on them.
+   (DOPass, DOQuantum, DOSkip, DOSend, DOPark, DOEnd, DODebit): the visit rule of C15 is stated on them.
    Only DOForward is visible from outside; the correspondence compares it and, after every action, the
    public fields of the object. *)
 From Coq Require Import ZArith QArith Qminmax List Bool.
@@ -103,6 +103,7 @@ Inductive dout :=
 | DOSkip (c : Z)                     (* visit of c: class_count[c] = 0, no quantum *)
 | DOSend (c : Z) (p : pkt)           (* head p is affordable: send_packet(p) spawned *)
 | DOPark (c : Z) (p : pkt)           (* head p is not affordable: parked in head_of_line, visit ends *)
+| DOEnd (c : Z)                      (* the inner while of the visit of c falls through: credit used up or class empty *)
 | DODebit (c : Z) (p : pkt) (reset : bool).   (* after the transmission of p: class_count[c] -= 1, deficit[c] -= size;
                                                 reset = the class is now empty and deficit[c] := 0 *)
 
@@ -160,7 +161,7 @@ Definition dinner (c : Z) (rest : list Z) (d : drr) : dres :=
         | None => DErr
         end
     end
-  else DFall d [].
+  else DFall d [DOEnd c].
 
 (* the visit of class c begins: `if self.class_count[c] > 0: self.deficit[c] += self.quantum[c]` *)
 Definition dvisit_start (cfg : dcfg) (c : Z) (d : drr) : drr * list dout :=
@@ -227,6 +228,16 @@ Definition dcontinue (cfg : dcfg) (rest : list Z) (r : dres) : option (drr * lis
       end
   | DErr => None
   end.
+
+(* run() resumes after the transmission of p (class c): class_count[c] -= 1; deficit[c] -= size;
+   if class_count[c] == 0: deficit[c] = 0.0 *)
+Definition ddebit_reset (d : drr) (c : Z) : bool := (dccnt d c - 1 =? 0)%Z.
+Definition ddebit (d : drr) (c : Z) (rest : list Z) (p : pkt) : drr :=
+  {| dnow := dnow d; dtok := dtok d; dst := dst d; dqcnt := dqcnt d; dqbytes := dqbytes d; dtotal := dtotal d;
+     dccnt := dupd (dccnt d) c (dccnt d c - 1)%Z;
+     ddef := dupd (ddef d) c (if ddebit_reset d c then 0 else Qred (ddef d c - inject_Z (psize p)));
+     dhol := dhol d; dcur := dcur d; dnrecv := dnrecv d; dlmax := dlmax d;
+     dchd := DCNone; dctrl := DKChild c rest |}.
 
 (* ---- urgency -------------------------------------------------------------------------------------------- *)
 Definition dchild_urgent (d : drr) : bool :=
@@ -312,16 +323,8 @@ Definition drr_act (cfg : dcfg) (d : drr) (a : daction) : option (drr * list dou
   | DChildEnd =>
       match dchd d, dctrl d with
       | DCDone p, DKChild c rest =>
-          let n := (dccnt d c - 1)%Z in
-          let v := Qred (ddef d c - inject_Z (psize p)) in
-          let reset := (n =? 0)%Z in
-          let d1 := {| dnow := dnow d; dtok := dtok d; dst := dst d; dqcnt := dqcnt d; dqbytes := dqbytes d; dtotal := dtotal d;
-                       dccnt := dupd (dccnt d) c n; ddef := dupd (ddef d) c (if reset then 0 else v);
-                       dhol := dhol d; dcur := dcur d; dnrecv := dnrecv d; dlmax := dlmax d;
-                       dchd := DCNone; dctrl := dctrl d |} in
-          let e1 := [DODebit c p reset] in
-          match dcontinue cfg rest (dinner c rest d1) with
-          | Some (d2, e2) => Some (d2, e1 ++ e2)
+          match dcontinue cfg rest (dinner c rest (ddebit d c rest p)) with
+          | Some (d2, e2) => Some (d2, DODebit c p (ddebit_reset d c) :: e2)
           | None => None
           end
       | _, _ => None
